@@ -228,6 +228,9 @@ impl Page {
                         continue;
                     }
                     self.start_evaluating(line);
+                    if self.get_state() == St::Errored {
+                        return Ok(());
+                    }
                 }
                 self.start_evaluating("RUN");
                 Ok(())
